@@ -1,18 +1,30 @@
 (* Locks/Props.v — C06: no lock of a finished transaction is left behind on failure-free paths.
    Model: Locks/Model.v (client bookkeeping of one transaction S + the set of locks the store holds
-   for S; store outcomes are event inputs; every pending task eventually runs: no loss, no crash).
-   [wf_run] = the API contract along the run:
+   for S; the store's answers are arbitrary event inputs, sanitised to the store contract inside
+   the model; every pending task eventually runs: no loss, no crash).
+   [wf_run] = the documented API contract along the run, nothing else:
      - LockKeys only on a valid transaction, for-update ts non-decreasing;
-     - Commit / Rollback not while an aggressive-locking attempt still holds current keys;
-     - [relock_safe]: a re-lock of a key held from the PREVIOUS aggressive-locking attempt neither
-       fails with key-exists / write-conflict nor is skipped as absent under lock-only-if-exists.
-   The last clause is not part of the documented contract: without it the code loses the lock
-   (known findings F19 / F19b, replayed on the real code) — see the [_refuted] theorems. *)
+     - Commit / Rollback not while an aggressive-locking attempt still holds current keys.
+   The model follows the code after the fixes of F19 / F19b (a re-requested key of the previous
+   aggressive-locking attempt stays in lastRetryUnnecessaryLocks until the request put it into
+   currentLockedKeys) and F31 (KVFilter); their replays are regression Examples below.
+   [C06_contract_satisfiable_everywhere], [C06_can_always_finish], [C06_every_run_can_finish_clean]
+   show that the hypotheses never exclude a state or a store answer. *)
 From Coq Require Import List NArith ZArith Bool Lia.
 From Verif Require Import Locks.Model Locks.ProofsBase Locks.ProofsInv Locks.ProofsCommit Locks.ProofsLock
   Locks.ProofsLockAgg Locks.ProofsLockAll Locks.ProofsMain.
 Import ListNotations.
 Open Scope N_scope.
+
+Ltac wf_solve :=
+  vm_compute; repeat split; try reflexivity; try (intros; discriminate);
+  try (intros; split; [reflexivity | intros; first [discriminate | contradiction]]);
+  try (intros; contradiction);
+  try (let k := fresh "k" in let Hk := fresh "Hk" in
+       intros k Hk; repeat (destruct Hk as [Hk|Hk]; [subst k; vm_compute; intros; first [discriminate | contradiction | tauto]|]);
+       contradiction).
+Ltac split_hyps := repeat match goal with H : _ /\ _ |- _ => destruct H end.
+
 
 (* The invariant: every lock the store holds for S is still known to the client (flagged key,
    current / previous aggressive-locking key — with a release ts that suffices) or is covered by a
@@ -86,51 +98,103 @@ Proof.
 Qed.
 Print Assumptions C06_quiescent_store_within_flags.
 
-(* ---- refuted without [relock_safe] (the faithful model loses the lock; replayed on the code) ---- *)
+(* the same from ANY state that satisfies the invariant (not only the initial one), any events *)
+Theorem C06_no_leftover_from_any_state :
+  forall s evs, Inv s -> wf_run s evs ->
+  valid (run s evs) = false -> tasks (run s evs) = [] -> store (run s evs) = [].
+Proof. exact no_leftover_general. Qed.
+Print Assumptions C06_no_leftover_from_any_state.
+
+(* scheduler-free form: after a finished well-formed run, draining the pending tasks (at most
+   [length tasks] task runs, any fuel beyond that) empties the store's lock set *)
+Theorem C06_no_leftover_after_drain :
+  forall (p : bool) (evs : list ev) (n : nat), wf_run (init p) evs ->
+  let s := run (init p) evs in
+  valid s = false -> (length (tasks s) <= n)%nat -> store (drain n s) = [].
+Proof. intros p evs n H s Hv Hl. apply no_leftover_drain; auto. apply bookkeeping_inv; auto. Qed.
+Print Assumptions C06_no_leftover_after_drain.
+
+(* no hidden vacuity: EVERY state (reachable or not) can be extended by well-formed events to a
+   finished, drained state — so the premises of C06_no_leftover are reachable from everywhere *)
+Theorem C06_can_always_finish :
+  forall s, exists evs, wf_run s evs /\ valid (run s evs) = false /\ tasks (run s evs) = [].
+Proof. intros s. exists (finish_evs s). apply can_always_finish. Qed.
+Print Assumptions C06_can_always_finish.
+
+Theorem C06_every_run_can_finish_clean :
+  forall (p : bool) (evs : list ev), wf_run (init p) evs ->
+  exists more, wf_run (init p) (evs ++ more) /\
+    let s := run (init p) (evs ++ more) in valid s = false /\ tasks s = [] /\ store s = [].
+Proof. intros p evs H. exact (every_run_can_finish_clean p evs H). Qed.
+Print Assumptions C06_every_run_can_finish_clean.
+
+(* in every state there are well-formed events of every kind, with ANY answer of the store: writes,
+   aggressive-locking calls and task runs always; LockKeys with any options and any outcome whenever
+   the transaction is valid and the for-update ts does not go back; Commit (any mode, any filter,
+   any prewrite / commit outcome) and Rollback whenever no attempt holds current keys *)
+Theorem C06_contract_satisfiable_everywhere :
+  forall s,
+  (forall k, wf_ev s (ESet k) /\ wf_ev s (EDel k) /\ wf_ev s (EInsert k)) /\
+  wf_ev s EAggStart /\ wf_ev s EAggRetry /\ wf_ev s EAggCancel /\ wf_ev s EAggDone /\
+  (forall n ks, wf_ev s (ERun n) /\ wf_ev s (ERunSome n ks)) /\
+  (valid s = true -> forall ks rv ce loie f o, fu s <= f -> wf_ev s (ELock ks rv ce loie f o)) /\
+  (pending s = false -> wf_ev s ERollback /\ forall o, wf_ev s (ECommit o)).
+Proof. exact wf_ev_exists. Qed.
+Print Assumptions C06_contract_satisfiable_everywhere.
+
+(* ---- regression replays of the fixed findings F19 / F19b ---- *)
 Definition ok_lock (ks : list key) : lock_out := mkLO false false ks [] 0 None.
 
-(* F19: re-lock of a previous-attempt key fails with key-exists (PresumeKeyNotExists set in between) *)
+(* F19: the re-lock of a previous-attempt key fails with key-exists (PresumeKeyNotExists set in between) *)
 Definition f19_run : list ev :=
   [EAggStart; ELock [1] false false false 10 (ok_lock [1]); EInsert 1; EAggRetry;
-   ELock [1] true false false 20 (mkLO false false [] [] 0 (Some FExists)); EAggDone; ERollback].
-(* F19b: re-lock with lock-only-if-exists reports the key absent *)
+   ELock [1] true false false 20 (mkLO false false [] [] 0 (Some FExists)); EAggDone; ERollback; ERun 0].
+(* F19b: the re-lock with lock-only-if-exists reports the key absent *)
 Definition f19b_run : list ev :=
   [EAggStart; ELock [4] false false false 10 (ok_lock [4]); EAggRetry;
-   ELock [4] true false true 20 (mkLO false false [] [4] 0 None); EAggDone; ERollback].
+   ELock [4] true false true 20 (mkLO false false [] [4] 0 None); EAggDone; ERollback; ERun 0].
 
-Theorem C06_no_leftover_refuted :
-  exists evs, wf_run_api (init true) evs /\
-    let s := run (init true) evs in valid s = false /\ tasks s = [] /\ store s <> [].
-Proof.
-  exists f19_run. split.
-  - vm_compute. repeat split; try reflexivity; intros; discriminate.
-  - vm_compute. repeat split; auto. discriminate.
-Qed.
-Print Assumptions C06_no_leftover_refuted.
+Example C06_f19_regression :
+  wf_run (init true) f19_run /\
+  (* after the failed re-lock the key is still a key of the previous attempt *)
+  in_prev (run (init true) (firstn 5 f19_run)) 1 = true /\
+  store (run (init true) (firstn 7 f19_run)) = [(1, Pess 10)] /\ store (run (init true) f19_run) = [].
+Proof. split; [wf_solve|]. vm_compute. auto. Qed.
 
-Theorem C06_no_leftover_loie_refuted :
-  exists evs, wf_run_api (init true) evs /\
-    let s := run (init true) evs in valid s = false /\ tasks s = [] /\ store s <> [].
-Proof.
-  exists f19b_run. split.
-  - vm_compute. repeat split; try reflexivity; intros; discriminate.
-  - vm_compute. repeat split; auto. discriminate.
-Qed.
-Print Assumptions C06_no_leftover_loie_refuted.
+Example C06_f19b_regression :
+  wf_run (init true) f19b_run /\
+  in_prev (run (init true) (firstn 4 f19b_run)) 4 = true /\
+  store (run (init true) (firstn 6 f19b_run)) = [(4, Pess 10)] /\ store (run (init true) f19b_run) = [].
+Proof. split; [wf_solve|]. vm_compute. auto. Qed.
+
+(* KVFilter (finding "kvfilter_drops_locked_delete", fixed in /repo: the model follows the fixed code):
+   whatever the transaction's KVFilter declares unnecessary, every flagged (locked) key stays a
+   mutation, so its lock is converted by the prewrite and released by commit / clean-up *)
+Theorem C06_kvfilter_keeps_locked_keys :
+  forall s unn k, In k (flags s) -> In k (mutations unn s).
+Proof. exact flags_in_mutations. Qed.
+Print Assumptions C06_kvfilter_keeps_locked_keys.
+
+(* the replay of the finding: a filtered Delete on a locked key, alone and next to another mutation *)
+Definition kvfilter_run : list ev :=
+  [ELock [1] false false false 10 (ok_lock [1]); EDel 1; ECommit (mkCO M2PC [] [1] [1] COk); ERun 0].
+Definition kvfilter_run2 : list ev :=
+  [ELock [1] false false false 10 (ok_lock [1]); EDel 1; ESet 2; ECommit (mkCO M2PC [] [1] [1] COk); ERun 0].
+Example C06_kvfilter_runs_clean :
+  wf_run (init true) kvfilter_run /\ wf_run (init true) kvfilter_run2 /\
+  mutations [1] (run (init true) (firstn 2 kvfilter_run)) = [1] /\
+  mutations [1] (run (init true) (firstn 3 kvfilter_run2)) = [1; 2] /\
+  store (run (init true) kvfilter_run) = [] /\ store (run (init true) kvfilter_run2) = [].
+Proof. split; [wf_solve|]. split; [wf_solve|]. vm_compute. auto. Qed.
 
 (* ---- non-vacuity: the hypotheses are satisfiable, and what goes wrong without them ---- *)
-Ltac wf_solve :=
-  vm_compute; repeat split; try reflexivity; try (intros; discriminate);
-  try (intros; split; [reflexivity | intros; first [discriminate | contradiction]]).
-Ltac split_hyps := repeat match goal with H : _ /\ _ |- _ => destruct H end.
-
 (* a partial LockKeys failure, a write conflict, an aggressive retry dropping a lock, a failed commit *)
 Definition sample_run : list ev :=
   [ELock [1; 2; 3] false false false 10 (mkLO false false [1; 2] [] 0 (Some FNoWait));
    ELock [2] false false false 11 (mkLO false false [] [] 0 (Some FConflict));
    EAggStart; ELock [4] false false false 12 (ok_lock [4]); ELock [5] false false false 13 (mkLO false false [5] [] 15 None);
    EAggRetry; ELock [4] false false false 16 (ok_lock []); EAggDone;
-   ESet 3; ECommit (mkCO M2PC [3] [] CPrewriteFail);
+   ESet 3; ECommit (mkCO M2PC [3] [] [] CPrewriteFail);
    ERun 0; ERun 0; ERun 0].
 
 Example C06_hypotheses_satisfiable :
@@ -167,14 +231,64 @@ Proof.
   match goal with H : ?x = ?x -> False |- _ => apply H; reflexivity end.
 Qed.
 
-(* the refuted runs violate exactly [relock_safe] *)
-Example C06_f19_violates_relock_safe : ~ wf_run (init true) f19_run.
-Proof.
-  intros H. vm_compute in H. split_hyps.
-  match goal with H : forall x : N, _ |- _ => destruct (H 1) as [? ?]; [auto | reflexivity | congruence] end.
-Qed.
-Example C06_f19b_violates_relock_safe : ~ wf_run (init true) f19b_run.
-Proof.
-  intros H. vm_compute in H. split_hyps.
-  match goal with H : forall x : N, _ |- _ => destruct (H 4) as [? Hx]; [auto | reflexivity | apply Hx; auto] end.
-Qed.
+(* ---- more non-vacuity: every event kind, every failure kind, every commit mode in well-formed runs
+   that really hold locks and end clean ---- *)
+Definition fail_lock (ks : list key) (e : fail) : lock_out := mkLO false false ks [] 0 (Some e).
+(* 1PC success; deadlock / timeout / other failures; a Delete; a partial task run *)
+Definition sample_1pc : list ev :=
+  [ELock [1; 2] false true false 10 (fail_lock [1] FDeadlock);
+   ERunSome 0 [1];
+   ELock [3] true false false 11 (fail_lock [] FTimeout);
+   ELock [2; 3] true false false 12 (fail_lock [2; 3] FOther);
+   ELock [4] false false false 13 (ok_lock [4]); EDel 4; EInsert 5; ELock [5] false false false 14 (ok_lock [5]);
+   ECommit (mkCO M1PC [] [] [] COk); ERun 0; ERun 0; ERun 0].
+Example C06_sample_1pc :
+  wf_run (init true) sample_1pc /\ map fst (store (run (init true) (firstn 8 sample_1pc))) = [5; 4; 2; 3] /\
+  let s := run (init true) sample_1pc in valid s = false /\ tasks s = [] /\ store s = [].
+Proof. split; [wf_solve|]. vm_compute. auto. Qed.
+
+(* async commit (everything in the background); key exists; lock-only-if-exists on an absent fresh key;
+   expiry of a previous-attempt lock forces the re-lock request; cancel *)
+Definition sample_async : list ev :=
+  [EInsert 1; ELock [1] false false false 10 (fail_lock [] FExists);
+   EAggStart; ELock [2] true false true 11 (mkLO false false [] [2] 0 None);
+   ELock [3] true false false 12 (ok_lock [3]); EAggRetry;
+   ELock [3] true false false 13 (mkLO false true [3] [] 0 None);
+   EAggCancel; ELock [4] false false false 14 (ok_lock [4]); ESet 4;
+   ECommit (mkCO MAsync [] [] [] COk); ERun 0; ERunSome 0 [4]; ERun 0].
+Example C06_sample_async :
+  wf_run (init true) sample_async /\
+  snd (lock_keys_full [3] true false false 13 (mkLO false true [3] [] 0 None) (run (init true) (firstn 6 sample_async))) = [3] /\
+  snd (lock_keys_full [3] true false false 13 (mkLO false false [3] [] 0 None) (run (init true) (firstn 6 sample_async))) = [] /\
+  let s := run (init true) sample_async in valid s = false /\ tasks s = [] /\ store s = [].
+Proof. split; [wf_solve|]. vm_compute. auto. Qed.
+
+(* commit fails definitively after a successful prewrite; a filtered SET on a locked key is kept as a
+   lock mutation (the filter is harmless there); optimistic transaction: prewrite conflict *)
+Definition sample_cfail : list ev :=
+  [ELock [1] false false false 10 (ok_lock [1]); ESet 1; ESet 2;
+   ECommit (mkCO M2PC [] [] [1] CCommitFail); ERun 0].
+Example C06_sample_commit_fail :
+  wf_run (init true) sample_cfail /\ mutations [1] (run (init true) (firstn 3 sample_cfail)) = [1; 2] /\
+  let s := run (init true) sample_cfail in valid s = false /\ tasks s = [] /\ store s = [].
+Proof. split; [wf_solve|]. vm_compute. auto. Qed.
+
+Definition sample_optimistic : list ev :=
+  [ESet 1; EDel 2; ECommit (mkCO M2PC [1] [] [] CPrewriteFail); ERun 0].
+Example C06_sample_optimistic :
+  wf_run (init false) sample_optimistic /\ map fst (store (run (init false) (firstn 3 sample_optimistic))) = [1] /\
+  let s := run (init false) sample_optimistic in valid s = false /\ tasks s = [] /\ store s = [].
+Proof. split; [wf_solve|]. vm_compute. auto. Qed.
+
+(* caller-contract observation (not a leftover): after a re-lock of a previous-attempt key failed with
+   an error that schedules the rollback, the key is still in the previous-attempt map; a further
+   LockKeys on it IN THE SAME attempt may take the skip path, and then the client counts a key as
+   locked whose lock the pending rollback releases.  Callers retry or cancel after a failed call. *)
+Definition skip_after_failed_relock : list ev :=
+  [EAggStart; ELock [1] false false false 10 (ok_lock [1]); EAggRetry;
+   ELock [1] true false false 20 (mkLO false false [] [] 0 (Some FNoWait));
+   ELock [1] false false false 21 (ok_lock []); ERun 0].
+Example C06_note_skip_after_failed_relock :
+  wf_run (init true) skip_after_failed_relock /\
+  let s := run (init true) skip_after_failed_relock in in_cur s 1 = true /\ store s = [] /\ tasks s = [].
+Proof. split; [wf_solve|]. vm_compute. auto. Qed.
